@@ -338,6 +338,10 @@ def c06(ctx):
     for e, ln, consts in hist_types(ctx, db):
         n += 1
         H.r_find_add(ctx, db, e, ln, consts)
+        if ln <= 4:
+            # repeated edges (zero-width bins): the documented contract of binary_search_by leaves the
+            # returned index open; decided for the algorithm shipped with the installed toolchain
+            H.r_find_add(ctx, db, e, ln, consts, strict=False, bsearch="core")
         # find() is decided for sorted edges: both constructors must establish that invariant
         H.r_const_width_monotone(ctx, db, e, ln, consts)
         if ln <= 3:
@@ -349,7 +353,9 @@ def c06(ctx):
         H.r_const_width_monotone(ctx, dba, e, ln, consts)
     ctx.floor("histogram instantiations analysed (find/add)", n, 6)
     ctx.notes.append("decided for strictly increasing edges under the documented contract of [T]::binary_search_by; with repeated edges the bin "
-                     "returned for a sample equal to the repeated edge depends on which equal index the standard library returns (unspecified)")
+                     "returned for a sample equal to the repeated edge depends on which equal index the standard library returns (unspecified): "
+                     "those cases (LEN <= 4) are decided for the binary-search algorithm of the installed toolchain's core (rustc 1.96/1.97) and are toolchain-specific")
+    ctx.trust("core::slice::binary_search_by algorithm of the installed toolchain (only for repeated edges)")
 
 
 def c12(ctx):
